@@ -45,6 +45,8 @@ DTYPES = {"float64": np.float64, "float32": np.float32, "int32": np.int32, "int6
           "int8": np.int8, "complex": np.complex128}
 SETDT = {"bool": bool, "int": np.int64, "float": float, "uint8": np.uint8, "int8": np.int8, "float32": np.float32,
          "complex": complex}
+OUT_TAG = "C08-ufunc-out-validity"
+FLAGS = []           # oracle clauses raised inside an operation wrapper (outputs of one call sharing a mask, ...)
 ARG_CHANGED = []     # descriptions of caller-supplied containers that an operation modified
 
 
@@ -163,6 +165,20 @@ def centre(field, ax, k):
     return float(field.mesh.index2point(tuple(idx))[ax])
 
 
+def pick_output(r, i):
+    """multi-output ufunc (np.divmod, np.modf, np.frexp): every output is a field with its own mask and all of
+    them carry the same validity; returns output i"""
+    if not isinstance(r, tuple) or not all(isinstance(o, df.Field) for o in r):
+        raise TypeError("not a tuple of fields")
+    for a in range(len(r)):
+        for b in range(a + 1, len(r)):
+            if np.shares_memory(r[a].valid, r[b].valid):
+                FLAGS.append("outputs-share-mask")
+            if not np.array_equal(r[a].valid, r[b].valid):
+                FLAGS.append("outputs-differ-in-validity")
+    return r[i]
+
+
 def apply_un(x, name, p):
     dims = x.mesh.region.dims
     if name == "neg":
@@ -229,7 +245,16 @@ def apply_un(x, name, p):
         return {"sin": lambda: np.sin(x), "negative": lambda: np.negative(x), "absolute": lambda: np.abs(x),
                 "square": lambda: np.square(x), "mul2": lambda: np.multiply(x, 2), "radd": lambda: np.add(2.0, x),
                 "positive": lambda: np.positive(x), "exp": lambda: np.exp(x), "sign": lambda: np.sign(x),
-                "arr": lambda: np.subtract(x, np.ones(x.array.shape))}[p["f"]]()
+                "arr": lambda: np.subtract(x, np.ones(x.array.shape)),
+                # several outputs, constants on either side, ufunc methods along the component axis
+                "modf0": lambda: pick_output(np.modf(x), 0), "modf1": lambda: pick_output(np.modf(x), 1),
+                "frexp0": lambda: pick_output(np.frexp(x), 0), "frexp1": lambda: pick_output(np.frexp(x), 1),
+                "divmodc0": lambda: pick_output(np.divmod(x, 2), 0), "divmodc1": lambda: pick_output(np.divmod(x, 2), 1),
+                "rdivmodc1": lambda: pick_output(np.divmod(7, x), 1),
+                "reduce_comp": lambda: np.add.reduce(x, axis=-1, keepdims=True),
+                "accum_comp": lambda: np.add.accumulate(x, axis=-1),
+                "where": lambda: np.negative(x, where=np.ones(x.array.shape, dtype=bool)),
+                }[p["f"]]()
     if name == "grad":
         return x.grad
     if name == "div":
@@ -260,6 +285,15 @@ def apply_bin(x, y, name, p):
         return x.angle(y)
     if name == "lshift":
         return x << y
+    if name == "ufunc2" and p["f"] in ("divmod0", "divmod1"):
+        return pick_output(np.divmod(x, y), int(p["f"][-1]))
+    if name == "ufunc2" and p["f"] == "add_where":
+        return np.add(x, y, where=np.ones(np.broadcast_shapes(x.array.shape, y.array.shape), dtype=bool))
+    if name == "ufunc2" and p["f"] == "add_out":
+        nv = max(int(x.nvdim), int(y.nvdim))
+        dt = np.result_type(x.array.dtype, y.array.dtype, np.float64)
+        o = df.Field(x.mesh, nvdim=nv, value=np.zeros((*x.mesh.n, nv), dtype=dt), dtype=dt)
+        return np.add(x, y, out=o)      # the returned field is checked here; the out field in the 'ufout' cases
     if name == "ufunc2":
         return {"add": np.add, "multiply": np.multiply, "maximum": np.maximum, "hypot": np.hypot,
                 "subtract": np.subtract, "arctan2": np.arctan2}[p["f"]](x, y)
@@ -582,7 +616,15 @@ def base_case(rng, tier, nd=None, nmax=None):
 
 def rand_leaf(rng, n, nv, cplx=False):
     ncell = math.prod(n)
-    vals = [rng.choice([-3, -2, -1, 1, 2, 3, 4, 0]) for _ in range(ncell * nv)]
+    vals = [F(rng.choice([-3, -2, -1, 1, 2, 3, 4, 0])) for _ in range(ncell * nv)]
+    pz = rng.choice([0.0, 0.15, 0.3])
+    for cell in range(ncell):
+        u = rng.random()
+        if u < pz:
+            vals[cell * nv:(cell + 1) * nv] = [F(0)] * nv                    # the zero vector (valid or not)
+        elif u < 1.5 * pz:
+            # shorter than the absolute 1e-8 threshold of "norm" / orientation, but not zero
+            vals[cell * nv:(cell + 1) * nv] = [F(rng.choice([-2, -1, 0, 1, 3]), 2 ** 40) for _ in range(nv)]
     return dict(nvdim=nv, vals=[g.qs(v) for v in vals], mask=rand_mask(rng, ncell), cplx=cplx)
 
 
@@ -692,7 +734,8 @@ def rand_un(rng, x):
         return k, dict(form=form, op=rng.choice(ops), v=rng.choice([1, 2, 3, -2]))
     if k == "ufunc1":
         return k, dict(f=rng.choice(["sin", "negative", "absolute", "square", "mul2", "radd", "positive", "exp",
-                                     "sign", "arr"]))
+                                     "sign", "arr", "modf0", "modf1", "frexp0", "frexp1", "divmodc0", "divmodc1",
+                                     "rdivmodc1", "reduce_comp", "accum_comp", "where"]))
     if k == "lshiftc":
         return k, dict(form=rng.randrange(5))
     if k in ("dotc", "crossc"):
@@ -714,7 +757,8 @@ def rand_bin(rng, x, y):
             kinds += ["cross", "cross"]
     k = rng.choice(kinds)
     if k == "ufunc2":
-        return k, dict(f=rng.choice(["add", "multiply", "maximum", "hypot", "subtract", "arctan2"]))
+        return k, dict(f=rng.choice(["add", "multiply", "maximum", "hypot", "subtract", "arctan2", "divmod0", "divmod1",
+                                     "divmod1", "add_out", "add_where"]))
     if k in ("dot", "cross"):
         return k, dict(form=rng.randrange(2))
     return k, {}
@@ -871,9 +915,12 @@ def gen_single_op_cases(rng, tier):
                for o in ("add", "radd", "sub", "mul", "rmul", "div")]
     un_all += [("ufunc1", dict(f=f)) for f in ("sin", "negative", "absolute", "square", "mul2", "radd", "positive",
                                                 "exp", "sign", "arr")]
+    un_all += [("ufunc1", dict(f=f)) for f in ("reduce_comp", "accum_comp", "where")]
+    maybe = [("ufunc1", dict(f=f)) for f in ("modf0", "modf1", "frexp0", "frexp1", "divmodc0", "divmodc1", "rdivmodc1")]
     bin_all = [(k, {}) for k in ("add", "sub", "mul", "div", "pow", "angle", "lshift")]
     bin_all += [("dot", dict(form=0)), ("dot", dict(form=1)), ("cross", dict(form=0)), ("cross", dict(form=1))]
-    bin_all += [("ufunc2", dict(f=f)) for f in ("add", "multiply", "maximum", "hypot", "subtract", "arctan2")]
+    bin_all += [("ufunc2", dict(f=f)) for f in ("add", "multiply", "maximum", "hypot", "subtract", "arctan2", "divmod0",
+                                                "divmod1", "add_out", "add_where")]
 
     def fresh(nv=3, nd=3, bc=None):
         c = base_case(rng, tier, nd=nd)
@@ -889,6 +936,12 @@ def gen_single_op_cases(rng, tier):
     for name, p in un_all:
         c = fresh(bc=rng.choice([None, "x", "xyz"]) if name == "diff" else None)
         c["tree"] = ["un", name, p, ["leaf", 0]]
+        out.append(c)
+    for name, p in maybe:
+        # refused by the library today (NotImplementedError); if accepted, the operand's validity, own masks
+        c = fresh()
+        c["tree"] = ["un", name, p, ["leaf", 0]]
+        c["may_reject"] = True
         out.append(c)
     for name, p in [("grad", dict(nd=3)), ("laplace", dict(nd=3, nv=1)), ("grad", dict(nd=2)),
                     ("scalar", dict(form="float", op="pow", v=2))]:
@@ -1111,6 +1164,17 @@ def gen_norm(rng, tier, exact):
     return c
 
 
+def gen_ufout(rng, tier):
+    """numpy ufunc with out=<field>: the caller's output field"""
+    c = base_case(rng, tier, nmax=3)
+    n = c["n"]
+    nv = rng.choice([1, 2, 3])
+    c["leaves"] = [rand_leaf(rng, n, nv), rand_leaf(rng, n, rng.choice([nv, 1])), rand_leaf(rng, n, nv)]
+    c["uf"] = rng.choice(["add", "multiply", "subtract", "negative", "divmod"])
+    c["kind"] = "ufout"
+    return c
+
+
 def gen_vtkenc(rng, tier):
     c = base_case(rng, tier, nd=3)
     c["mask"] = rand_mask(rng, math.prod(c["n"]))
@@ -1143,6 +1207,8 @@ def generate(rng, tier):
         cases.append(gen_norm(rng, tier, False))
     for _ in range(15 if quick else 100):
         cases.append(gen_vtkenc(rng, tier))
+    for _ in range(12 if quick else 80):
+        cases.append(gen_ufout(rng, tier))
     return cases
 
 
@@ -1156,6 +1222,7 @@ def observe(c, tree, leaves, rec):
     """one run of the operation tree on the operands as they are now.
     returns dict(coq=..., res2=...) or dict(coq=..., rejected=True)"""
     del ARG_CHANGED[:]
+    del FLAGS[:]
     snaps = [snap_field(f) for f in leaves]
     masks0 = [np.array(f.valid, dtype=bool).copy() for f in leaves]
     ctx = Ctx(leaves)
@@ -1163,12 +1230,12 @@ def observe(c, tree, leaves, rec):
         st, r = attempt(lambda: ev(tree, ctx))
     if st != "ok" or not isinstance(r[0], df.Field):
         err = r if st != "ok" else "not-a-field"
-        if not c.get("expect_reject"):
+        if not c.get("expect_reject") and not c.get("may_reject"):
             rec["oracle"].append("operation-raised")
         if [snap_field(f) for f in leaves] != snaps:
             rec["oracle"].append("operand-changed")
         coq = None
-        if not has_poke(tree):
+        if not has_poke(tree) and not c.get("may_reject"):
             coq = f"CExpr {env_coq(ctx, masks0, [])} {expr_coq(tree)} None [] []"
         return dict(coq=coq, rejected=True, obs=dict(err=err))
     res, exp = r
@@ -1188,6 +1255,7 @@ def observe(c, tree, leaves, rec):
         rec["oracle"].append("operand-changed")
     if ARG_CHANGED:
         rec["oracle"].append("caller-argument-changed")
+    rec["oracle"] += sorted(set(FLAGS))
     valid = res.valid
     extras = [x for x, _ in ctx.extra]
     extra_masks = [m for _, m in ctx.extra]
@@ -1494,8 +1562,49 @@ def run_vtkenc(c):
     return rec
 
 
+def run_ufout(c):
+    """np.<ufunc>(f1, f2, out=o): either refused, or the output field the caller handed over carries the AND of
+    the operands' validity once it holds the result (oracle only; the returned field is covered by 'expr')"""
+    rec = dict(kind="ufout", case=c, oracle=[], tags=[], coq=None)
+    f1, f2, o = build_leaves(c)
+    o2 = df.Field(o.mesh, nvdim=o.nvdim, value=o.array.copy(), valid=o.valid.copy())
+    snaps = [snap_field(f1), snap_field(f2)]
+    o_before = o.array.copy()
+    uf = c["uf"]
+    want = f1.valid.copy() if uf == "negative" else np.logical_and(f1.valid, f2.valid)
+    with np.errstate(all="ignore"):
+        if uf == "negative":
+            st, r = attempt(lambda: np.negative(f1, out=o))
+        elif uf == "divmod":
+            st, r = attempt(lambda: np.divmod(f1, f2, out=(o, o2)))
+        else:
+            st, r = attempt(lambda: getattr(np, uf)(f1, f2, out=o))
+    if [snap_field(f1), snap_field(f2)] != snaps:
+        rec["oracle"].append("operand-changed")
+    written = o.array.tobytes() != o_before.tobytes()
+    outs = [o, o2] if uf == "divmod" else [o]
+    if st == "ok":
+        rs = list(r) if isinstance(r, tuple) else [r]
+        for x in rs:
+            if isinstance(x, df.Field) and (x.valid.dtype != np.bool_ or not np.array_equal(x.valid, want)):
+                rec["oracle"].append("validity-does-not-follow-data")
+        if any(not np.array_equal(x.valid, want) for x in outs):
+            rec["oracle"].append("out-field-validity-not-updated")
+            rec["tags"].append(OUT_TAG)
+    elif written:
+        rec["oracle"].append("refused-but-out-field-written")
+    rec["oracle"] = sorted(set(rec["oracle"]))
+    rec.update(obs=dict(status=st if st != "ok" else "ok", err=None if st == "ok" else r, written=written,
+                        out_valid=[x.valid.reshape(-1).tolist() for x in outs], want=want.reshape(-1).tolist(),
+                        returned_is_out=bool(st == "ok" and not isinstance(r, tuple) and r is o)),
+               key=f"ufout/{uf}/{tuple(c['n'])}/{hash(tuple(c['leaves'][0]['mask']))}", size=math.prod(c["n"]))
+    return rec
+
+
 def run_case(c):
     k = c["kind"]
+    if k == "ufout":
+        return run_ufout(c)
     if k == "expr":
         return run_expr(c)
     if k == "mapdata":
